@@ -134,6 +134,52 @@ open KafVerif.Gen.C42 in
 theorem _root_.KafVerif.C42.closures_nonvacuous :
     1 ≤ closures.length ∧ ∀ c ∈ closures, 1 ≤ (writes c.prog).length := by decide
 
+/-! ### names of distinct owned objects are distinct -/
+
+open KafVerif.Gen.C42 in
+/-- **table obligation** (regenerated on every run): within every object kind, the Name expressions of
+the CreateOrUpdate sites are all `cluster.Name ++ literal suffix` with pairwise different suffixes. -/
+theorem _root_.KafVerif.C42.owned_names_table_ok : namesOk nameSites := by decide
+
+theorem namesOk_injective (t : List NameSite) (h : namesOk t) :
+    t.Pairwise fun a b => a.kind = b.kind →
+      ∀ n : List Nat, ∃ x y, renderName n a.form = some x ∧ renderName n b.form = some y ∧ x ≠ y := by
+  refine List.Pairwise.imp ?_ h
+  intro a b hab hk n
+  have hd := hab hk
+  cases ha : a.form with
+  | other => simp [ha, distinctSuffix] at hd
+  | concat s1 =>
+    cases hb : b.form with
+    | other => simp [ha, hb, distinctSuffix] at hd
+    | concat s2 =>
+      refine ⟨n ++ s1, n ++ s2, rfl, rfl, ?_⟩
+      intro he
+      have := List.append_cancel_left he
+      simp [ha, hb, distinctSuffix, this] at hd
+
+open KafVerif.Gen.C42 in
+/-- **C42 (names).** For EVERY cluster name, two different CreateOrUpdate sites of the same kind name
+two different objects — so no two mutate closures ever fight over one object (which would rewrite it on
+every reconcile), and the number of owned objects does not depend on the cluster name. -/
+theorem _root_.KafVerif.C42.owned_names_injective :
+    nameSites.Pairwise fun a b => a.kind = b.kind →
+      ∀ n : List Nat, ∃ x y, renderName n a.form = some x ∧ renderName n b.form = some y ∧ x ≠ y :=
+  namesOk_injective nameSites KafVerif.C42.owned_names_table_ok
+
+/-- why `other` is refused: a helper that cuts `<name>-etcd-maintenance` / `<name>-etcd-maintenance-check`
+to 52 bytes gives both sites the same name for a 35-byte cluster name and not for a 34-byte one (with an
+additional TrimRight "-", as in the seeded change C42-r3-2, already for 34 bytes). -/
+theorem _root_.KafVerif.C42.cut_names_can_collide :
+    let m := [45, 101, 116, 99, 100, 45, 109, 97, 105, 110, 116, 101, 110, 97, 110, 99, 101]   -- "-etcd-maintenance"
+    let k := m ++ [45, 99, 104, 101, 99, 107]                                                   -- "-etcd-maintenance-check"
+    cutName 52 (List.replicate 35 97) m = cutName 52 (List.replicate 35 97) k ∧
+    cutName 52 (List.replicate 34 97) m ≠ cutName 52 (List.replicate 34 97) k := by decide
+
+example : namesOk [⟨0, 1, .concat [45, 97]⟩, ⟨1, 1, .concat [45, 98]⟩, ⟨2, 2, .concat [45, 97]⟩] := by decide
+example : ¬ namesOk [⟨0, 1, .concat [45, 97]⟩, ⟨1, 1, .other⟩] := by decide
+example : ¬ namesOk [⟨0, 1, .concat [45, 97]⟩, ⟨1, 1, .concat [45, 97]⟩] := by decide
+
 /-! ### non-vacuity of the semantics: a guarded assign-then-default program really changes an object -/
 
 def demoEnv : Env := ⟨fun c => c == 1, fun e p => if e == 3 then 0 else e * 10 + p.length, fun _ => 7, fun _ o => o⟩
